@@ -544,3 +544,201 @@ def fingerprint_build(prog, chk, rule="build-side"):
         elif pushes:
             chk.ob(rule, "add_fingerprint|a refused call leaves the builder unchanged", False, body.loc(), detail="pushes %r" % ([e[1] for e in pushes],))
     chk.floor(rule + "-fingerprint-ok-states", n_ok, 1)
+
+
+# ------------------------------------------------------------------------------------------------ the builder's adders (C11)
+
+T_MI, T_M2, T_FP = 0x0008, 0x001C, 0x8028
+
+
+def type_of_value(st, v):
+    """an AttributeType value as (constant | name of its symbolic variable)"""
+    n = 0
+    while isinstance(v, Struct) and len(v.f) == 1 and n < 3:
+        v = v.get(0)
+        n += 1
+    if isinstance(v, Num):
+        cv = st.sys.const_value(v.e)
+        if cv is not None:
+            return int(cv)
+        return "var:%r" % (st.sys.reduce(v.e),)
+    return None
+
+
+def model_has_any(c):
+    """summary of MessageBuilder::has_any_attribute(list) (decided on its own: first element of attribute_types that is in
+    the list): None, or Some(one of the listed types); the question and the answer stay on the path's trace"""
+    from absint.interp import event
+    q = c.deref(c.args[1])
+    if not (isinstance(q, Seq) and is_listed(q.items)):
+        event(c.st, "has-any", None, None)
+        return [(c.st, c.top_ret())]
+    elems = [q.items.f[i] for i in sorted(q.items.f)]
+    qs = tuple(type_of_value(c.st, e) for e in elems)
+    out = []
+    s0 = c.st.copy()
+    event(s0, "has-any", qs, None)
+    out.append((s0, Enum(OPTION, {0: Struct()})))
+    for i, e in enumerate(elems):
+        s_i = c.st.copy()
+        event(s_i, "has-any", qs, qs[i])
+        out.append((s_i, Enum(OPTION, {1: Struct({0: e})})))
+    return out
+
+
+def model_has(c):
+    from absint.interp import event
+    t = type_of_value(c.st, c.args[1])
+    s_no, s_yes = c.st, c.st.copy()
+    event(s_no, "has-any", (t,), None)
+    event(s_yes, "has-any", (t,), t)
+    return [(s_no, Cond("const", False)), (s_yes, Cond("const", True))]
+
+
+def adders(prog, chk):
+    names = [f["name"] for f in prog.adts[MBADT]["variants"][0]["fields"]]
+    want_cells = ["a1*self.%d" % names.index("attributes"), "a1*self.%d" % names.index("attribute_types")]
+    summaries = {MBNS + "has_any_attribute": model_has_any, MBNS + "has_attribute": model_has, MBNS + "build": model_build_self, KEYFN: model_make_hmac_key}
+
+    def run_adder(fn, setup=None):
+        key = MBNS + fn
+        body = prog.bodies.get(key)
+        if body is None:
+            chk.fail(fn + "-table", "not found")
+            return None, []
+        def dyn_get_type(c):
+            # an attribute of unknown kind: its type is some 16-bit value, the same every time it is asked
+            v = Lin.var("type_of_attr")
+            c.st.sys.add_range(v, 0, 65535)
+            c.st.cells["ghost:q:type_of_attr"] = Num(v)
+            return [(c.st, Struct({0: Num(v)}))]
+        r = Run(prog, key, track_content=True, max_parts=2000, local_models=summaries, setup=setup,
+                def_models={"stun_types::attribute::Attribute::get_type": dyn_get_type})
+        if r.error or not r.results:
+            chk.fail(fn + "-table", "analysis", detail=r.error or "no return state")
+            return body, []
+        return body, [(r, st, ret) for st, ret in r.results]
+
+    def outcome(st, ret):
+        res = variant_of(prog, ret)
+        if res != "Err":
+            return res, None, None
+        e = ret.v[1].get(0)
+        en = variant_of(prog, e)
+        pay = e.v[next(iter(e.v))].get(0) if isinstance(e, Enum) and len(e.v) == 1 and e.v[next(iter(e.v))].f else None
+        return res, en, type_of_value(st, pay) if pay is not None else None
+
+    # ---- add_attribute / add_raw_attribute
+    for fn in ("add_attribute", "add_raw_attribute"):
+        rule = fn + "-table"
+        body, results = run_adder(fn)
+        n = 0
+        seen = set()
+        for r, st, ret in results:
+            tr = r.trace(st)
+            qs = [e for e in tr if e[0] == "has-any"]
+            pushes = [e for e in tr if e[0] == "push"]
+            res, en, et = outcome(st, ret)
+            problems = []
+            if len(qs) != 1 or qs[0][1] is None:
+                problems.append("the presence question is not asked exactly once with a known list (%r)" % (qs,))
+            else:
+                q, ans = qs[0][1], qs[0][2]
+                tys = [x for x in q if isinstance(x, str)]
+                if sorted(x for x in q if isinstance(x, int)) != sorted([T_MI, T_M2, T_FP]) or len(tys) != 1:
+                    problems.append("the list asked about is %r, not {the attribute's type, MESSAGE-INTEGRITY, MESSAGE-INTEGRITY-SHA256, FINGERPRINT}" % (q,))
+                ty = tys[0] if tys else None
+                seen.add("none" if ans is None else "ty" if ans == ty else ans)
+                if ans is None:
+                    if res != "Ok":
+                        problems.append("nothing conflicting is present but the attribute is refused (%s)" % en)
+                    if [e[1] for e in pushes] != want_cells:
+                        problems.append("accepting does not push exactly one attribute and one type: %r" % ([e[1] for e in pushes],))
+                    else:
+                        at = pushes[0][2]
+                        vn = variant_of(prog, at)
+                        if vn != ("Attr" if fn == "add_attribute" else "Raw"):
+                            problems.append("the attribute stored is of kind %s" % vn)
+                        if type_of_value(st, pushes[1][2]) != ty:
+                            problems.append("the type recorded (%r) is not the attribute's type (%r)" % (type_of_value(st, pushes[1][2]), ty))
+                else:
+                    want = {T_MI: ("MessageIntegrityExists", None), T_M2: ("MessageIntegrityExists", None), T_FP: ("FingerprintExists", None)}.get(ans, ("AttributeExists", ty))
+                    if res != "Err" or en != want[0] or (want[1] is not None and et != want[1]):
+                        problems.append("with %s present the call returns %s %s(%r), not Err(%s)" % (ans, res, en, et, want[0]))
+                    if pushes:
+                        problems.append("a refused attribute changes the builder: %r" % ([e[1] for e in pushes],))
+                # the three sealing types are never accepted through this door (documented panic)
+                if ty is not None and res == "Ok":
+                    m = re.match(r"^var:(.*)$", ty)
+                    for tv in (T_MI, T_M2, T_FP):
+                        s2 = st.sys.copy()
+                        for vname in (st.sys.vars() if m else ()):
+                            if repr(Lin.var(vname)) == m.group(1):
+                                s2.add_eq(Lin.var(vname) - tv)
+                                if s2.feasible():
+                                    problems.append("an attribute of type 0x%04x can be added through %s" % (tv, fn))
+            n += 1
+            chk.ob(rule, "%s|%s" % ("present=%s" % (qs[0][2] if qs and len(qs) == 1 else "?"), res if res == "Ok" else "Err(%s)" % en), not problems, body.loc(),
+                   detail="; ".join(sorted(set(problems))), how="E2 return state: the presence question and answer on the path, the result, the pushes")
+        chk.floor(rule + "-rows", n, 5)
+        chk.ob(rule, "every answer is analysed", seen >= {"none", "ty", T_MI, T_M2, T_FP}, body.loc() if body else None, detail=repr(seen))
+
+    # ---- add_message_integrity
+    rule = "add_message_integrity-table"
+    body = prog.bodies.get(MBNS + "add_message_integrity")
+    arg = {body.locals[i]["name"]: i for i in range(1, body.arg_count + 1)} if body else {}
+    for av, qwant in (("Sha1", [T_MI, T_M2, T_FP]), ("Sha256", [T_M2, T_FP])):
+        def setup(run, st, av=av):
+            c_ = run.it.cell_of(run.fr, arg["algorithm"])
+            ev = st.cells.get(c_)
+            if isinstance(ev, Enum):
+                st.cells[c_] = ev.only([v["name"] for v in prog.adts[ev.adt]["variants"]].index(av))
+        body, results = run_adder("add_message_integrity", setup)
+        seen = set()
+        for r, st, ret in results:
+            tr = r.trace(st)
+            qs = [e for e in tr if e[0] == "has-any"]
+            pushes = [e for e in tr if e[0] == "push"]
+            res, en, et = outcome(st, ret)
+            problems = []
+            if len(qs) != 1 or qs[0][1] is None:
+                problems.append("the presence question is not asked exactly once with a known list (%r)" % (qs,))
+            else:
+                q, ans = qs[0][1], qs[0][2]
+                if sorted(q, key=repr) != sorted(qwant, key=repr):
+                    problems.append("the list asked about is %r, not %r" % (q, qwant))
+                seen.add(ans)
+                if ans is None:
+                    if res != "Ok" or [e[1] for e in pushes] != want_cells:
+                        problems.append("nothing conflicting is present but the result is %s %s with pushes %r" % (res, en, [e[1] for e in pushes]))
+                else:
+                    want = ("FingerprintExists", None) if ans == T_FP else ("AttributeExists", ans)
+                    if res != "Err" or en != want[0] or (want[1] is not None and et != want[1]):
+                        problems.append("with 0x%04x present the call returns %s %s(%r), not Err(%s)" % (ans, res, en, et, want[0]))
+                    if pushes:
+                        problems.append("a refused call changes the builder")
+            chk.ob(rule, "%s|present=%s|%s" % (av, qs[0][2] if len(qs) == 1 else "?", res if res == "Ok" else "Err(%s)" % en), not problems, body.loc(),
+                   detail="; ".join(sorted(set(problems))), how="E2 return state")
+        chk.ob(rule, "%s|every answer is analysed" % av, seen >= set(qwant) | {None}, body.loc() if body else None, detail=repr(seen))
+
+    # ---- add_fingerprint
+    rule = "add_fingerprint-table"
+    body, results = run_adder("add_fingerprint")
+    seen = set()
+    for r, st, ret in results:
+        tr = r.trace(st)
+        qs = [e for e in tr if e[0] == "has-any"]
+        pushes = [e for e in tr if e[0] == "push"]
+        res, en, et = outcome(st, ret)
+        problems = []
+        if len(qs) != 1 or qs[0][1] is None or tuple(qs[0][1]) != (T_FP,):
+            problems.append("the presence question is not asked exactly once about FINGERPRINT (%r)" % ([q[1:] for q in qs],))
+        else:
+            ans = qs[0][2]
+            seen.add(ans)
+            if ans is None and (res != "Ok" or [e[1] for e in pushes] != want_cells):
+                problems.append("no fingerprint present but the result is %s %s with pushes %r" % (res, en, [e[1] for e in pushes]))
+            if ans is not None and (res != "Err" or en not in ("AttributeExists", "FingerprintExists") or pushes):
+                problems.append("a fingerprint is present but the result is %s %s with pushes %r" % (res, en, [e[1] for e in pushes]))
+        chk.ob(rule, "present=%s|%s" % (qs[0][2] if len(qs) == 1 else "?", res if res == "Ok" else "Err(%s)" % en), not problems, body.loc(), detail="; ".join(problems), how="E2 return state")
+    chk.ob(rule, "both answers are analysed", seen >= {None, T_FP}, body.loc() if body else None, detail=repr(seen))
